@@ -6,6 +6,7 @@ import (
 	"reflect"
 	"sort"
 	"strings"
+	"sync"
 	"testing"
 	"unicode"
 
@@ -577,6 +578,37 @@ func runC12Eval(tb report.TB, rep *report.Reporter, c c12EvalCase) {
 			tb.Fatalf("harness: %v", err)
 		}
 	}
+	// ---- two requests at once on the same bug (the web UI): one closes or re-opens it, the other comments. Both
+	// are acknowledged; what the queries use afterwards describes the bug after both.
+	if c.Seed%2 == 0 {
+		stop := lockDelays(c.Seed)
+		for round := 0; round < 8; round++ {
+			id := allIds[(int(c.Seed%7)+round)%len(allIds)]
+			var wg sync.WaitGroup
+			for g := 0; g < 2; g++ {
+				wg.Add(1)
+				go func(g int) {
+					defer wg.Done()
+					bc, err := rc.Bugs().Resolve(entity.Id(id))
+					if err != nil {
+						return
+					}
+					if g == 0 {
+						if bc.Snapshot().Status.String() == "open" {
+							_, _ = bc.CloseRaw(authors[0], int64(7000+round), nil)
+						} else {
+							_, _ = bc.OpenRaw(authors[0], int64(7000+round), nil)
+						}
+					} else {
+						_, _, _ = bc.AddCommentRaw(authors[len(authors)-1], int64(7100+round), "said at the same moment", nil, nil)
+					}
+					_ = bc.CommitAsNeeded()
+				}(g)
+			}
+			wg.Wait()
+		}
+		stop()
+	}
 	// ---- reference population, read from git without the cache
 	idents := map[string]refIdent{}
 	ids, _ := identity.ListLocalIds(r.Repo)
@@ -644,7 +676,14 @@ func runC12Eval(tb report.TB, rep *report.Reporter, c c12EvalCase) {
 		}
 		return out
 	}
-	for qi, sq := range c.Queries {
+	queries := c.Queries
+	if c.Seed%2 == 0 {
+		// what the two simultaneous requests changed is asked for explicitly
+		last := popNames[(len(authors)-1)%len(popNames)][0]
+		queries = append([]sQuery{{Status: []string{"open"}, Order: []int{0}}, {Status: []string{"closed"}, Order: []int{0}},
+			{Participant: []string{last}, Order: []int{0}}, {Actor: []string{last}, Status: []string{"closed"}, Order: []int{0, 1}}}, queries...)
+	}
+	for qi, sq := range queries {
 		sq.Author, sq.Actor, sq.Participant = resolvePerson(sq.Author), resolvePerson(sq.Actor), resolvePerson(sq.Participant)
 		text := sq.render()
 		got, err := run(text)
